@@ -1520,6 +1520,32 @@ example :
       = .ok (.error .impossible) := by
   decide +kernel
 
+/-- reading back what was set (the accessor methods `Parsed::year()` … are plain reads of these
+fields): after a successful set the field holds the stored value — the argument itself, for
+`set_hour12` `v % 12`, for `set_hour` the two halves `v / 12`, `v % 12` — whatever the prior record -/
+theorem set_then_get (p p1 : Parsed) (v : Int) :
+    (p.set_year v = .ok p1 → p1.year = some v) ∧
+    (p.set_year_div_100 v = .ok p1 → p1.year_div_100 = some v) ∧
+    (p.set_year_mod_100 v = .ok p1 → p1.year_mod_100 = some v) ∧
+    (p.set_isoyear v = .ok p1 → p1.isoyear = some v) ∧
+    (p.set_isoyear_div_100 v = .ok p1 → p1.isoyear_div_100 = some v) ∧
+    (p.set_isoyear_mod_100 v = .ok p1 → p1.isoyear_mod_100 = some v) ∧
+    (p.set_quarter v = .ok p1 → p1.quarter = some v) ∧
+    (p.set_month v = .ok p1 → p1.month = some v) ∧
+    (p.set_week_from_sun v = .ok p1 → p1.week_from_sun = some v) ∧
+    (p.set_week_from_mon v = .ok p1 → p1.week_from_mon = some v) ∧
+    (p.set_isoweek v = .ok p1 → p1.isoweek = some v) ∧
+    (p.set_ordinal v = .ok p1 → p1.ordinal = some v) ∧
+    (p.set_day v = .ok p1 → p1.day = some v) ∧
+    (p.set_hour12 v = .ok p1 → p1.hour_mod_12 = some (v % 12)) ∧
+    (p.set_minute v = .ok p1 → p1.minute = some v) ∧
+    (p.set_second v = .ok p1 → p1.second = some v) ∧
+    (p.set_nanosecond v = .ok p1 → p1.nanosecond = some v) ∧
+    (p.set_offset v = .ok p1 → p1.offset = some v) ∧
+    (p.set_timestamp v = .ok p1 → p1.timestamp = some v) ∧
+    (p.set_hour v = .ok p1 → p1.hour_div_12 = some (v / 12) ∧ p1.hour_mod_12 = some (v % 12)) :=
+  get_after_set_all p p1 v
+
 /-- no resolver panics: for every record of in-type field values, every `i32` offset argument and
 every fixed-offset zone, each of the six resolvers returns a value or an error kind
 (`to_naive_time` and `to_fixed_offset` are `ParseResult`-valued in the model: they contain no
